@@ -130,3 +130,9 @@ package fingerprint
 //@   site anyFileNewerThan#1 ghost compared := result.1 == nil
 //@   site os.Chtimes#1 ghost refreshed := true
 //@   ensures result.1 == nil && compared && !checker.dry ==> refreshed                                               [C05]
+// a missing generates file makes the task run again with method timestamp too: every (non-negated) generates
+// entry must resolve to at least one existing file before the answer can be "up to date"
+//@   site glob#1 ghost genOK(t, $i) := result.1 == nil && len(result.0) > 0
+//@   loop 1 invariant forall k {genOK(t, k)} :: 0 <= k && k < $i ==> t.Generates[k].Negate || genOK(t, k)            [C05]
+//@   ensures result.0 && result.1 == nil ==>
+//@           forall k {genOK(t, k)} :: 0 <= k && k < len(t.Generates) ==> t.Generates[k].Negate || genOK(t, k)       [C05]
